@@ -56,3 +56,739 @@ def regenerate(ctx):
         raise RuntimeError('tracer_diffusivity branches on its arguments: %r' % (sym.PATH[:3],))
     src += 'end KawinV.Gen.C10\n'
     return [os.path.relpath(GEN_FILE, vlib.VERIF)] if vlib.write_if_changed(GEN_FILE, src) else []
+
+
+META = {
+    'level_text': 'Lean 4 theorems, for any field and any number of elements, about executable models of mobility_matrix / x_to_u_frac, of the bordered-Hessian assembly hessian(), of the row selection in totalddx/dMudX/partialdMudX over an ARBITRARY inverse matrix, of chemical_diffusivity/interdiffusivity, and about the traced tracer_diffusivity: volume-fixed frame (every substitutional column of the mobility matrix sums to zero, hence the substitutional fluxes J = -M.grad(mu) sum to zero for any gradient); tracer = 8.314*T*mobility element-wise and positive with the mobility; dMudX = -B^T K B, symmetric whenever K is, K symmetric whenever the assembled Hessian is, the assembled Hessian symmetric whenever pycalphad\'s site-fraction block is; Gibbs-Duhem for partialdMudX derived from the assembled bordered system at a stationary composition set; Darken: the binary interdiffusivity pipeline equals (x_R D*_k + x_k D*_R) x_k x_R G\'\'/(RT) with G\'\' what dMudX returns, and is positive when mobilities, G\'\' and T are. The models are tied to kawin/thermo on every run (inverse Hessian, mobilities, mole fractions captured from real pycalphad composition sets and from duck-typed random phases; outputs compared to rtol 1e-9), and every clause is also evaluated directly on the implementation.',
+    'level_note': 'MONITORED ONLY (oracle on grids over the matrix-phase region of the shipped databases; these are facts about the CALPHAD functions and pycalphad\'s derivatives/solver, not about kawin\'s logic, and no theorem covers them): dMudX equals the central finite difference of the equilibrium chemical potentials through getLocalEq; dMudX positive definite; interdiffusivity eigenvalues real and positive (positive scalar for binaries); tracer diffusivities/mobilities positive; stationarity of the converged composition set (hypothesis of the Gibbs-Duhem/Darken theorems, checked numerically as Gibbs-Duhem residual). np.linalg.inv is not modelled (its result is an input; symmetry of the inverse is proved from symmetry of the matrix). Element re-ordering in getInterdiffusivity/getTracerDiffusivity is proved in C11 (Model/Permute.lean, wrapMat_equivariant / wrapVecRef_equivariant); here it is only exercised by a paired evaluation. Exact-field theorems vs IEEE doubles. The statement of C10 is dominated by the monitored clauses: what is PROVED is the algebraic half (tracer = RTM, Darken, volume-fixed frame, symmetry), what decides the first sentence of the property on the databases is the oracle. Known finding (known_findings.txt, key darken-public-diffusivity-only-database): on the diffusivity-only Al-Zr databases the PUBLIC getInterdiffusivity/getTracerDiffusivity pair does not satisfy Darken (solvent tracer reported as exp(0) = 1).',
+    'technique': 'Lean 4 proof over fields (Finset sums, Mathlib Matrix for the inverse) + py2lean trace of tracer_diffusivity + model/implementation differential correspondence on captured inverse Hessians + monitored oracle (finite differences, eigenvalues) on the shipped databases',
+    'design_ref': 'DESIGN.md section 6, C10',
+}
+LEAN_MODULES = ['KawinV.Props.C10']
+MONITORED = [
+    'dMudX equals the central finite difference of equilibrium chemical potentials w.r.t. composition (public getLocalEq), stable matrix-phase region of the shipped databases',
+    'dMudX positive definite in the stable single-phase region',
+    'interdiffusivity matrix has real positive eigenvalues (positive scalar for a binary)',
+    'mobilities / tracer diffusivities from the database callables are positive',
+    'converged composition sets are stationary (Gibbs-Duhem residual of partialdMudX ~ 0): hypothesis of gibbs_duhem_of_stationary / darken_pipeline_ref*',
+    'element re-ordering of getInterdiffusivity/getTracerDiffusivity (theorems live in C11; paired evaluation here)',
+]
+ASSUMPTIONS = [
+    'temperature positive, substitutional mole fractions do not sum to zero',
+    'Darken: binary substitutional phase, mole fractions sum to one, composition set stationary (first-order equilibrium condition), bordered Hessian invertible',
+    'exact-field theorems vs IEEE doubles: outputs compared with rtol 1e-9 scaled by the magnitude of the summed terms',
+    'stable matrix-phase region = sampled box per database filtered by non-positive precipitate driving force w.r.t. the loaded phases',
+]
+TRUSTED = ['np.linalg.inv (result captured and used as model input)', 'pycalphad phase-record callables (formulahess, formulagrad, formulamole_*, internal_cons_jac) and local_equilibrium',
+           'np.matmul / np.sum reduction order (compared to tolerance)']
+
+RGAS = 8.314
+
+
+# ------------------------------------------------------------------ kawin handles
+def _kawin():
+    vlib.use_repo()
+    with warnings.catch_warnings():
+        warnings.simplefilter('ignore')
+        from kawin.thermo import FreeEnergyHessian as FEH, Mobility as Mob
+    return FEH, Mob
+
+
+class CaptureInv:
+    """records the results of np.linalg.inv while active (None for a call that raised)"""
+    def __enter__(self):
+        self.orig = np.linalg.inv
+        self.calls = []
+
+        def inv(a, *k, **kw):
+            try:
+                r = self.orig(a, *k, **kw)
+            except Exception:
+                self.calls.append(None)
+                raise
+            self.calls.append(np.array(r, dtype=float, copy=True))
+            return r
+        np.linalg.inv = inv
+        return self
+
+    def __exit__(self, *a):
+        np.linalg.inv = self.orig
+        return False
+
+
+# ------------------------------------------------------------------ duck-typed phases
+class _Sp:
+    def __init__(self, name): self.name = name
+
+
+class _Var:
+    def __init__(self, name, sub): self.species = _Sp(name); self.sublattice_index = sub
+
+
+class StubPR:
+    def __init__(self, els, subl, ratios, d2g, dg, dup_constraint, junk):
+        from pycalphad import variables as v
+        self.nonvacant_elements = list(els)
+        self.state_variables = [v.N, v.P, v.T]
+        self.num_statevars = 3
+        self.variables = [_Var(sp, si) for si, sps in enumerate(subl) for sp in sps]
+        self.phase_dof = len(self.variables)
+        self.nsub = len(subl)
+        self.dup = dup_constraint
+        self.num_internal_cons = self.nsub + (1 if dup_constraint else 0)
+        self.ratios = ratios
+        self._d2g, self._dg, self._junk = d2g, dg, junk
+
+    def formulamole_obj(self, out, dof, idx):
+        e = self.nonvacant_elements[idx]
+        out[0] = sum(self.ratios[vv.sublattice_index] * dof[3 + i] for i, vv in enumerate(self.variables) if vv.species.name == e)
+
+    def formulamole_grad(self, out, dof, idx):
+        e = self.nonvacant_elements[idx]
+        out[:] = 0
+        for i, vv in enumerate(self.variables):
+            if vv.species.name == e:
+                out[3 + i] = self.ratios[vv.sublattice_index]
+
+    def formulagrad(self, out, dof):
+        out[:3] = self._junk[:3]
+        out[3:] = self._dg
+
+    def formulahess(self, out, dof):
+        out[:, :] = self._junk[3]          # state-variable rows/columns hold junk: the code must not read them
+        out[3:, 3:] = self._d2g
+
+    def internal_cons_jac(self, out, dof):
+        out[:, :] = 0
+        for i, vv in enumerate(self.variables):
+            out[vv.sublattice_index, 3 + i] = 1
+        if self.dup:
+            out[self.nsub, :] = out[0, :]
+
+
+class StubCS:
+    def __init__(self, pr, dof, X):
+        self.phase_record, self.dof, self.X, self.NP = pr, dof, X, 1.0
+
+
+SUBST = ['AL', 'CR', 'CU', 'FE', 'MG', 'NI', 'SI', 'TI', 'ZR']
+INTER = ['B', 'C', 'H', 'N', 'O']
+
+
+def make_stub(seed, kind):
+    """kind: 'subst' | 'interst' | 'binary-stationary' | 'singular'; fully determined by (seed, kind)"""
+    import random
+    rng = random.Random(seed)
+    r = np.random.default_rng(rng.getrandbits(32))
+    if kind == 'binary-stationary':
+        ns, ni = 2, 0
+    elif kind == 'subst':
+        ns, ni = rng.randint(2, 5), 0
+    elif kind == 'singular':
+        ns, ni = rng.randint(2, 3), rng.randint(0, 1)
+    else:
+        ns, ni = rng.randint(1, 3), rng.randint(1, 2)
+    sub_els = sorted(rng.sample(SUBST, ns))
+    int_els = sorted(rng.sample(INTER, ni))
+    els = sorted(sub_els + int_els)
+    va0 = rng.random() < 0.3
+    subl = [sub_els + (['VA'] if va0 else [])]
+    ratios = [1.0]
+    if ni or rng.random() < 0.5:
+        va1 = (not ni) or rng.random() < 0.75      # interstitial sublattice without vacancies: vaTerms default 1
+        subl.append(int_els + (['VA'] if va1 else []))
+        ratios.append(rng.choice([1.0, 3.0, 0.5]))
+    y = []
+    for si, sps in enumerate(subl):
+        w = r.random(len(sps)) + 0.05
+        if si == 0 and va0:
+            w[-1] = 1e-4 * r.random()
+        if si == 1 and 'VA' in sps and len(sps) > 1:
+            w[:-1] *= 0.1
+        y += list(w / w.sum())
+    y = np.array(y)
+    T = rng.uniform(500.0, 1800.0)
+    dof = np.concatenate(([1.0, 101325.0, T], y))
+    p = len(y)
+    A = r.normal(size=(p, p)) * 3e4
+    d2g = A @ A.T / 3e4 + np.diag(RGAS * T / np.maximum(y, 1e-6))
+    d2g = (d2g + d2g.T) / 2
+    junk = [r.normal(), r.normal(), r.normal(), r.normal() * 1e5]
+    pr = StubPR(els, subl, ratios, d2g, np.zeros(p), kind == 'singular', junk)
+    n = len(els)
+    moleA = np.zeros(n); dxdy = np.zeros((n, p + 3))
+    for A_ in range(n):
+        tmp = np.zeros(1); pr.formulamole_obj(tmp, dof, A_); moleA[A_] = tmp[0]
+        pr.formulamole_grad(dxdy[A_, :], dof, A_)
+    X = moleA / moleA.sum()
+    mu = r.normal(size=n) * 5e4
+    if kind == 'binary-stationary':
+        jac = np.zeros((pr.num_internal_cons, p + 3)); pr.internal_cons_jac(jac, dof)
+        lam = r.normal(size=pr.num_internal_cons) * 1e4
+        pr._dg = dxdy[:, 3:].T @ mu + jac[:, 3:].T @ lam          # first-order equilibrium condition
+    else:
+        pr._dg = r.normal(size=p) * 5e4
+    cs = StubCS(pr, dof, X)
+    mobv = {e: 10 ** r.uniform(-24, -12) for e in els}
+    cal = {e: (lambda val: (lambda dof_: val))(mobv[e]) for e in els}
+    ck = rng.choice(['none', 'partial', 'full'])
+    if ck == 'none':
+        cor = None
+    else:
+        cor = {e: float(10 ** r.uniform(-1, 1)) for e in els if ck == 'full' or rng.random() < 0.5}
+    ref = rng.choice(sub_els)
+    return dict(kind='stub:' + kind, cs=cs, mu=mu, ref=ref, cal=cal, cor=cor, vacPoor=rng.random() < 0.3,
+                desc=dict(kind='stub:' + kind, seed=seed, els=els, subl=subl, ratios=ratios, T=T, y=y.tolist(), ref=ref))
+
+
+# ------------------------------------------------------------------ real databases
+_DB = {}
+
+
+def _load(name):
+    if name in _DB:
+        return _DB[name]
+    vlib.use_repo()
+    with warnings.catch_warnings():
+        warnings.simplefilter('ignore')
+        from kawin.thermo import GeneralThermodynamics, BinaryThermodynamics, MulticomponentThermodynamics
+        from kawin.tests import datasets as ds
+        ex = os.path.join(vlib.REPO, 'examples')
+        if name == 'NiCrAl':
+            th = MulticomponentThermodynamics(ds.NICRAL_TDB, ['NI', 'CR', 'AL'], ['FCC_A1', 'FCC_L12'], drivingForceMethod='tangent')
+        elif name == 'NiAlCr':
+            th = MulticomponentThermodynamics(ds.NICRAL_TDB, ['NI', 'AL', 'CR'], ['FCC_A1', 'FCC_L12'], drivingForceMethod='tangent')
+        elif name == 'AlCrNi':
+            th = MulticomponentThermodynamics(ds.NICRAL_TDB, ['AL', 'CR', 'NI'], ['FCC_A1', 'FCC_L12'], drivingForceMethod='tangent')
+        elif name == 'NiAl':
+            th = BinaryThermodynamics(ds.NICRAL_TDB, ['NI', 'AL'], ['FCC_A1', 'FCC_L12'], drivingForceMethod='tangent')
+        elif name == 'NiCr':
+            th = BinaryThermodynamics(ds.NICRAL_TDB, ['NI', 'CR'], ['FCC_A1'], drivingForceMethod='tangent')   # no second phase loaded: box kept inside the gamma field (x_Cr <= 0.30, T >= 1000 K)
+        elif name == 'AlZr':
+            th = BinaryThermodynamics(ds.ALZR_TDB, ['AL', 'ZR'], ['FCC_A1', 'AL3ZR'], drivingForceMethod='tangent')
+        elif name == 'AlZr-ex':
+            th = BinaryThermodynamics(os.path.join(ex, 'AlScZr.tdb'), ['AL', 'ZR'], ['FCC_A1', 'AL3ZR'], drivingForceMethod='tangent')
+        elif name == 'FeCrNi':
+            th = GeneralThermodynamics(os.path.join(ex, 'FeCrNi.tdb'), ['FE', 'CR', 'NI'], ['FCC_A1', 'BCC_A2'])
+        elif name == 'AlMgSi':
+            th = MulticomponentThermodynamics(os.path.join(ex, 'AlMgSi.tdb'), ['AL', 'MG', 'SI'],
+                                              ['FCC_A1', 'MGSI_B_P', 'MG5SI6_B_DP', 'B_PRIME_L', 'U1_PHASE', 'U2_PHASE'])
+        elif name == 'CuTi':
+            th = BinaryThermodynamics(os.path.join(ex, 'CuTi.tdb'), ['CU', 'TI'], ['FCC_A1', 'CU4TI'])
+        else:
+            raise KeyError(name)
+        try:
+            th.setDFSamplingDensity(2000); th.setEQSamplingDensity(500)
+        except Exception:
+            pass
+    _DB[name] = th
+    return th
+
+
+def _loguni(rng, lo, hi):
+    return 10 ** rng.uniform(math.log10(lo), math.log10(hi))
+
+
+# sampling boxes in the matrix phase (solute order = th.elements[1:-1]); filtered by precipitate driving force
+BOXES = {
+    'NiCrAl': lambda g: ([g.uniform(0.005, 0.25), g.uniform(0.005, 0.12)], g.uniform(1000, 1500)),
+    'NiAlCr': lambda g: ([g.uniform(0.005, 0.12), g.uniform(0.005, 0.25)], g.uniform(1000, 1500)),
+    'AlCrNi': None,
+    'NiAl': lambda g: (g.uniform(0.002, 0.12), g.uniform(1000, 1500)),
+    'NiCr': lambda g: (g.uniform(0.005, 0.30), g.uniform(1000, 1500)),
+    'AlZr': lambda g: (_loguni(g, 1e-7, 2e-3), g.uniform(600, 900)),
+    'AlZr-ex': lambda g: (_loguni(g, 1e-7, 2e-3), g.uniform(600, 900)),
+    'FeCrNi': lambda g: ([g.uniform(0.02, 0.25), g.uniform(0.08, 0.40)], g.uniform(1200, 1500)),
+    'AlMgSi': lambda g: ([_loguni(g, 1e-4, 1e-2), _loguni(g, 1e-4, 1e-2)], g.uniform(700, 850)),
+    'CuTi': lambda g: (_loguni(g, 1e-4, 3e-2), g.uniform(800, 1150)),
+}
+
+
+def stable(th, x, T):
+    """no precipitate phase among the loaded ones has a positive driving force"""
+    for p in th.phases[1:]:
+        try:
+            dg, _ = th.getDrivingForce(x, T, precPhase=p, removeCache=True)
+        except Exception:
+            return None
+        if not np.all(np.isfinite(dg)) or float(np.max(dg)) > 0:
+            return False
+    return True
+
+
+def real_case(seed, name, xT=None):
+    import random
+    rng = random.Random(seed)
+    th = _load(name)
+    x, T = xT if xT is not None else BOXES[name](rng)
+    phase = th.phases[0]
+    st = stable(th, x, T)
+    res, css = th.getLocalEq(x, T, 0, [phase])
+    cs = css[0]
+    mu = np.array(res.chemical_potentials, dtype=float)
+    cal = th.mobCallables.get(phase)
+    synthetic = cal is None
+    els = list(cs.phase_record.nonvacant_elements)
+    if synthetic:      # database without mobility parameters (Al-Zr): real thermodynamics, synthetic positive mobilities
+        r = np.random.default_rng(rng.getrandbits(32))
+        vals = {e: 10 ** r.uniform(-24, -14) for e in els}
+        cal = {e: (lambda val: (lambda dof_: val))(vals[e]) for e in els}
+    cor = dict(th.mobility_correction)
+    return dict(kind='real:' + name, db=name, th=th, x=x, T=T, stable=st, cs=cs, mu=mu, ref=th.elements[0], cal=cal, cor=cor,
+                vacPoor=False, synthetic=synthetic, converged=bool(getattr(res, 'converged', True)),
+                desc=dict(kind='real:' + name, seed=seed, x=x, T=T, phase=phase, ref=th.elements[0], synthetic_mobility=synthetic, stable=st))
+
+
+# ------------------------------------------------------------------ evaluation of one case on the implementation
+def gather(case):
+    """calls the real functions; captures the model inputs"""
+    FEH, Mob = _kawin()
+    cs, mu, ref, cal, vp = case['cs'], case['mu'], case['ref'], case['cal'], case['vacPoor']
+    cor = lambda: (None if case['cor'] is None else dict(case['cor']))
+    pr = cs.phase_record
+    els = list(pr.nonvacant_elements)
+    n = len(els); p = pr.phase_dof; k = pr.num_internal_cons; sv = pr.num_statevars
+    dof = np.array(cs.dof, dtype=float)
+    o = dict(els=els, n=n, p=p, k=k, size=p + k + 1 + n, i0=p + k + 1, refIdx=els.index(ref), dof=dof)
+    o['T'] = float(dof[pr.state_variables.index(__import__('pycalphad').variables.T)])
+    # inputs of hessian(), obtained the way the code obtains them
+    dxdy = np.zeros((n, len(dof))); moleA = np.zeros((n, 1))
+    for A in range(n):
+        pr.formulamole_grad(dxdy[A, :], cs.dof, A)
+        pr.formulamole_obj(moleA[A, :], cs.dof, A)
+    dg = np.zeros(len(dof)); pr.formulagrad(dg, cs.dof)
+    d2g = np.zeros((len(dof), len(dof))); pr.formulahess(d2g, cs.dof)
+    jac = np.zeros((k, len(dof))); pr.internal_cons_jac(jac, cs.dof)
+    o.update(d2g=d2g[sv:, sv:].copy(), dg=dg[sv:].copy(), jac=jac[:, sv:].copy(), dxdy=dxdy[:, sv:].copy(), moleA=moleA[:, 0].copy())
+    o['X'] = np.array(cs.X, dtype=float)
+    # the real functions
+    o['H'] = FEH.hessian(mu, cs)
+    with CaptureInv() as cap:
+        o['ddx'] = FEH.totalddx(mu, cs, ref)
+    o['K'] = cap.calls[-1] if cap.calls else None
+    o['ninv'] = len(cap.calls)
+    o['tot'] = FEH.dMudX(mu, cs, ref)
+    o['par'] = FEH.partialdMudX(mu, cs)
+    o['mob'] = np.array(Mob.mobility_from_composition_set(cs, cal, cor()), dtype=float)
+    o['tracer'] = np.array(Mob.tracer_diffusivity(cs, cal, cor()), dtype=float)
+    o['Mm'] = Mob.mobility_matrix(cs, cal, cor(), vp)
+    o['Dkj'], o['hret'] = Mob.chemical_diffusivity(mu, cs, cal, cor(), True, vp)
+    o['Dn'], _ = Mob.interdiffusivity(mu, cs, ref, cal, cor(), False, vp)
+    # per-element correction and raw callable value (inputs of the traced formula)
+    cd = case['cor'] or {}
+    o['corr'] = np.array([float(cd.get(e, 1)) for e in els])
+    o['raw'] = np.array([float(cal[e](dof)) for e in els])
+    # interstitial flags and vacancy terms (inputs of the mobility-matrix model)
+    o['interst'] = [1 if e in Mob.interstitials else 0 for e in els]
+    va, it = {}, {}
+    for i, vv in enumerate(pr.variables):
+        if vv.species.name == 'VA':
+            va[vv.sublattice_index] = float(dof[len(pr.state_variables) + i])
+        if vv.species.name in Mob.interstitials:
+            it[vv.species.name] = vv.sublattice_index
+    o['yVa'] = np.array([va.get(it[e], 1.0) if e in it else 1.0 for e in els])
+    return o
+
+
+# ------------------------------------------------------------------ protocol lines for the model
+def model_lines(case, o, g):
+    n, p, k, size, i0, ref = o['n'], o['p'], o['k'], o['size'], o['i0'], o['refIdx']
+    mu = case['mu']
+    hasK = o['K'] is not None
+    Kl = enc_list(o['K'].ravel()) if hasK else enc_list([])
+    it = enc_ilist(o['interst']); vp = vlib.enc_bool(case['vacPoor'])
+    L = ['c10.hess %d %d %d %s %s %s %s %s %s' % (p, k, n, enc_list(o['d2g'].ravel()), enc_list(o['dg']), enc_list(mu),
+                                                  enc_list(o['jac'].ravel()), enc_list(o['dxdy'].ravel()), enc_list(o['moleA'])),
+         'c10.dmu %d %d %d %d %s %s' % (size, i0, n, ref, vlib.enc_bool(hasK), Kl),
+         'c10.mob %d %s %s %s %s %s %s' % (n, it, vp, enc_list(o['X']), enc_list(o['mob']), enc_list(o['yVa']), enc_list(g)),
+         'c10.inter %d %d %d %d %s %s %s %s %s %s %s' % (size, i0, n, ref, it, vp, enc_list(o['X']), enc_list(o['mob']), enc_list(o['yVa']),
+                                                         vlib.enc_bool(hasK), Kl)]
+    ntr = 0
+    for a in range(0, n, 3):
+        idx = [min(a + j, n - 1) for j in range(3)]
+        L.append('c10.tracer %s %s' % (f2b(o['T']), ' '.join('%s %s' % (f2b(o['corr'][i]), f2b(o['raw'][i])) for i in idx)))
+        ntr += 1
+    dark = n == 2 and not any(o['interst'])
+    if dark:
+        kk = 1 - ref
+        L.append('c10.darken %s %s %s %s %s %s %s' % (f2b(o['X'][kk]), f2b(o['X'][ref]), f2b(o['mob'][kk]), f2b(o['mob'][ref]),
+                                                      f2b(o['tot'][0, 0]), f2b(RGAS), f2b(o['T'])))
+    return L, ntr, dark
+
+
+def _mat(t, r, c):
+    v = t.flts()
+    if len(v) != r * c:
+        raise ValueError('model answered %d numbers for a %dx%d matrix' % (len(v), r, c))
+    return np.array(v).reshape(r, c)
+
+
+def mclose(a, b, rtol, scale=0.0):
+    a = np.asarray(a, dtype=float).ravel(); b = np.asarray(b, dtype=float).ravel()
+    return len(a) == len(b) and all(close(x, y, rtol, scale) for x, y in zip(a, b))
+
+
+def compare_model(res, case, o, g, answers, ntr, dark):
+    d = case['desc']
+    n, size = o['n'], o['size']
+    it = iter(answers)
+
+    def nxt(what):
+        t = Toks(next(it))
+        if not t.ok:
+            res.disagree(what + ': model error ' + str(t.err), d, 'ok', t.err)
+            return None
+        return t
+    t = nxt('c10.hess')
+    if t is not None:
+        mH = _mat(t, size, size)
+        if not mclose(o['H'], mH, 1e-9, 1e-300):
+            res.disagree('hessian() assembly', d, o['H'].tolist(), mH.tolist())
+    t = nxt('c10.dmu')
+    if t is not None:
+        mddx = _mat(t, size, n - 1); mtot = _mat(t, n - 1, n - 1); mpar = _mat(t, n, n)
+        ks = float(np.abs(o['K']).max()) if o['K'] is not None else 0.0
+        kmu = float(np.abs(o['K'][o['i0']:, o['i0']:]).max()) if o['K'] is not None else 0.0
+        if not mclose(o['ddx'], mddx, 1e-9, ks * 1e-3):
+            res.disagree('totalddx', d, np.asarray(o['ddx']).tolist(), mddx.tolist())
+        if not mclose(o['tot'], mtot, 1e-9, kmu):
+            res.disagree('dMudX', d, o['tot'].tolist(), mtot.tolist())
+        if not mclose(o['par'], mpar, 1e-9, 1e-300):
+            res.disagree('partialdMudX', d, np.asarray(o['par']).tolist(), mpar.tolist())
+    t = nxt('c10.mob')
+    if t is not None:
+        t.flts(); t.flt(); mMm = _mat(t, n, n); mJ = np.array(t.flts()); mJs = t.flt()
+        if not mclose(o['Mm'], mMm, 1e-9, 1e-300):
+            res.disagree('mobility_matrix', d, o['Mm'].tolist(), mMm.tolist())
+        J = -(o['Mm'] @ g)
+        sc = float(np.abs(o['Mm'] * g[None, :]).sum(axis=1).max())
+        if not mclose(J, mJ, 1e-9, sc):
+            res.disagree('flux -M.g', d, J.tolist(), mJ.tolist())
+    t = nxt('c10.inter')
+    if t is not None:
+        mDkj = _mat(t, n, n); mDn = _mat(t, n - 1, n - 1)
+        sc = float((np.abs(o['Mm']) @ np.abs(o['par'])).max())
+        if not mclose(o['Dkj'], mDkj, 1e-9, sc):
+            res.disagree('chemical_diffusivity', d, o['Dkj'].tolist(), mDkj.tolist())
+        if not mclose(o['Dn'], mDn, 1e-9, sc):
+            res.disagree('interdiffusivity', d, o['Dn'].tolist(), mDn.tolist())
+    for a in range(ntr):
+        t = nxt('c10.tracer')
+        if t is not None:
+            mm = t.flts(); mt = t.flts()
+            idx = [min(3 * a + j, n - 1) for j in range(3)]
+            if not mclose(o['mob'][idx], mm, 1e-12) or not mclose(o['tracer'][idx], mt, 1e-12):
+                res.disagree('traced mobility/tracer formula', d, [o['mob'][idx].tolist(), o['tracer'][idx].tolist()], [mm, mt])
+    if dark:
+        t = nxt('c10.darken')
+        if t is not None:
+            md = t.flt()
+            if case.get('stationary', False) and not close(float(o['Dn'][0, 0]), md, case.get('darken_tol', 1e-7)):
+                res.disagree('interdiffusivity vs Lean Darken combination', d, float(o['Dn'][0, 0]), md)
+
+
+# ------------------------------------------------------------------ direct oracle on the implementation
+def oracle_algebra(res, case, o, g, tag):
+    d = case['desc']
+    n = o['n']; it = o['interst']; Mm = np.asarray(o['Mm'], dtype=float)
+    sub = [a for a in range(n) if not it[a]]
+    # tracer = R T M
+    want = RGAS * o['T'] * o['mob']
+    if not mclose(o['tracer'], want, 1e-12):
+        res.violate('tracer-not-RTM:' + tag, 'tracer_diffusivity is not 8.314*T*mobility', d, o['tracer'].tolist(), want.tolist())
+    if not mclose(o['mob'], o['corr'] * o['raw'], 1e-12):
+        res.violate('mobility-not-correction-times-callable:' + tag, 'mobility_from_composition_set is not correction*callable', d,
+                    o['mob'].tolist(), (o['corr'] * o['raw']).tolist())
+    # volume-fixed frame: substitutional column sums and flux sum
+    usum = float(sum(o['X'][a] for a in sub))
+    if usum != 0 and np.all(np.isfinite(Mm)):
+        for b in range(n):
+            col = float(sum(Mm[a, b] for a in sub)); sc = float(sum(abs(Mm[a, b]) for a in sub))
+            if abs(col) > 1e-9 * sc:
+                res.violate('mobmatrix-column-sum:' + tag, 'column %d of the substitutional block of mobility_matrix does not sum to zero' % b, d, col, 0.0)
+                break
+        J = -(Mm @ g)
+        js = float(sum(J[a] for a in sub)); sc = float(sum(np.abs(Mm[a, :] * g).sum() for a in sub))
+        if abs(js) > 1e-9 * sc:
+            res.violate('subst-flux-sum:' + tag, 'substitutional fluxes -M.grad(mu) do not sum to zero', dict(d, grad=g.tolist()), js, 0.0)
+        for a in range(n):          # interstitial rows/columns: diagonal only
+            if it[a] and (np.abs(np.delete(Mm[a, :], a)).max(initial=0.0) != 0 or np.abs(np.delete(Mm[:, a], a)).max(initial=0.0) != 0):
+                res.violate('interstitial-offdiagonal:' + tag, 'interstitial element %d has off-diagonal mobility entries' % a, d)
+    # symmetry of dMudX when the site-fraction Hessian block is symmetric
+    tot = np.asarray(o['tot'], dtype=float)
+    if o['K'] is not None and np.abs(o['d2g'] - o['d2g'].T).max() <= 1e-12 * np.abs(o['d2g']).max():
+        Hs = np.abs(o['H'] - o['H'].T).max()
+        if Hs > 1e-12 * np.abs(o['H']).max():
+            res.violate('hessian-asymmetric:' + tag, 'hessian() is not symmetric although the site-fraction block is', d, float(Hs), 0.0)
+        if np.abs(tot - tot.T).max() > 1e-8 * np.abs(tot).max():
+            res.violate('dmudx-asymmetric:' + tag, 'dMudX is not symmetric', d, tot.tolist(), None)
+        # -B^T K B, computed independently from the captured inverse
+        i0, ref = o['i0'], o['refIdx']
+        nr = [a for a in range(n) if a != ref]
+        B = np.zeros((o['size'], n - 1))
+        for c, a in enumerate(nr):
+            B[i0 + a, c] = 1; B[i0 + ref, c] = -1
+        want = -(B.T @ o['K'] @ B)
+        if not mclose(tot, want, 1e-9, float(np.abs(o['K'][i0:, i0:]).max())):
+            res.violate('dmudx-not-BtKB:' + tag, 'dMudX is not -B^T.inv(H).B', d, tot.tolist(), want.tolist())
+    if o['K'] is None and (np.abs(tot).max() != 0 or np.abs(o['par']).max() != 0):
+        res.violate('singular-not-zero:' + tag, 'inversion failed but dMudX/partialdMudX are not zero', d)
+
+
+def oracle_darken(res, case, o, tag, tol):
+    """binary substitutional: Gibbs-Duhem residual of the partial matrix and the Darken identity"""
+    d = case['desc']
+    if not (o['n'] == 2 and not any(o['interst']) and o['K'] is not None):
+        return
+    X, P = o['X'], np.asarray(o['par'], dtype=float)
+    ref = o['refIdx']; k = 1 - ref
+    gd = X @ P
+    sc = np.abs(X[:, None] * P).sum(axis=0)
+    res.extra['gd_residual_max'] = max(res.extra.get('gd_residual_max', 0.0), float((np.abs(gd) / sc).max()))
+    if np.any(np.abs(gd) > tol * sc):
+        res.violate('gibbs-duhem-residual:' + tag, 'partialdMudX does not satisfy Gibbs-Duhem (composition set not stationary)', d, gd.tolist(), 0.0)
+        return
+    G2 = float(o['tot'][0, 0])
+    T = o['T']
+    Dk, DR = RGAS * T * o['mob'][k], RGAS * T * o['mob'][ref]
+    want = (X[ref] * Dk + X[k] * DR) * (X[k] * X[ref] * G2 / (RGAS * T))
+    got = float(o['Dn'][0, 0])
+    res.extra['darken_relerr_max'] = max(res.extra.get('darken_relerr_max', 0.0), abs(got - want) / max(abs(want), 1e-300))
+    if not close(got, want, tol):
+        res.violate('darken:' + tag, 'binary interdiffusivity is not (x_R D*_k + x_k D*_R) x_k x_R G\'\'/(RT)', d, got, want)
+    res.count('darken-checked')
+
+
+def fd_dmudx(th, x, T, phase):
+    """central finite differences (Richardson) of the equilibrium chemical potentials through getLocalEq"""
+    els = list(th.elements[:-1]); alpha = sorted(els); ref = els[0]
+    sol = [e for e in alpha if e != ref]
+    user = els[1:]
+    xv = np.atleast_1d(np.array(x, dtype=float))
+    xr = 1.0 - xv.sum()
+    n = len(sol)
+    ri = alpha.index(ref)
+
+    def mu_at(xx):
+        r, _ = th.getLocalEq(xx if len(xx) > 1 else float(xx[0]), T, 0, [phase])
+        return np.array(r.chemical_potentials, dtype=float)
+
+    J = np.zeros((n, n))
+    for c, e in enumerate(sol):
+        kx = user.index(e)
+        h = min(2e-4, 0.05 * xv[kx], 0.05 * xr)
+
+        def der(hh):
+            xp = xv.copy(); xp[kx] += hh; xm = xv.copy(); xm[kx] -= hh
+            return (mu_at(xp) - mu_at(xm)) / (2 * hh)
+        dd = (4 * der(h / 2) - der(h)) / 3
+        for cp, e2 in enumerate(sol):
+            J[cp, c] = dd[alpha.index(e2)] - dd[ri]
+    return J
+
+
+def oracle_monitored(res, case, o, tag):
+    """facts about the CALPHAD functions: evaluated on stable matrix-phase points of the shipped databases only"""
+    d = case['desc']
+    th = case['th']; x, T = case['x'], case['T']
+    tot = np.asarray(o['tot'], dtype=float)
+    sym = (tot + tot.T) / 2
+    ev = np.linalg.eigvalsh(sym)
+    if not (ev.min() > 0):
+        res.violate('not-positive-definite:' + tag, 'dMudX is not positive definite in the stable matrix region', d, ev.tolist(), '> 0')
+    J = fd_dmudx(th, x, T, th.phases[0])
+    err = float(np.abs(J - tot).max() / np.abs(tot).max())
+    res.extra['fd_relerr_max'] = max(res.extra.get('fd_relerr_max', 0.0), err)
+    if err > FD_TOL:
+        res.violate('fd-mismatch:' + tag, 'dMudX differs from the finite-difference derivative of the equilibrium chemical potentials', d, tot.tolist(), J.tolist())
+    if not case['synthetic']:
+        if not np.all(o['tracer'] > 0) or not np.all(o['mob'] > 0):
+            res.violate('tracer-nonpositive:' + tag, 'tracer diffusivity / mobility not positive', d, o['tracer'].tolist(), '> 0')
+    Dn = np.asarray(o['Dn'], dtype=float)
+    w = np.linalg.eigvals(Dn)
+    if np.any(np.abs(w.imag) > 1e-9 * np.abs(w).max()) or not np.all(w.real > 0):
+        res.violate('interdiffusivity-eigenvalues:' + tag, 'interdiffusivity eigenvalues are not real and positive', d, [complex(z).__repr__() for z in w], 'real > 0')
+    res.count('monitored-point:' + tag)
+
+
+FD_TOL = 5e-5     # observed maximum over 8000 points of all five databases: 3e-6
+
+
+def oracle_public(res, case, o, tag):
+    """public API: getInterdiffusivity / getTracerDiffusivity are the function outputs re-ordered to the user's element order"""
+    if case['synthetic']:
+        return
+    d = case['desc']; th = case['th']; x, T = case['x'], case['T']
+    els = o['els']; ref = case['ref']
+    user = list(th.elements[1:-1]); alpha_nr = [e for e in els if e != ref]
+    D = np.atleast_2d(np.asarray(th.getInterdiffusivity(x, T), dtype=float))
+    want = np.array([[o['Dn'][alpha_nr.index(a), alpha_nr.index(b)] for b in user] for a in user])
+    if not mclose(D, want, 1e-7, float(np.abs(want).max()) * 1e-3):
+        res.violate('public-interdiffusivity-order:' + tag, 'getInterdiffusivity is not interdiffusivity() in the user element order', d, D.tolist(), want.tolist())
+    tr = np.asarray(th.getTracerDiffusivity(x, T), dtype=float)
+    uall = list(th.elements[:-1])
+    wt = np.array([o['tracer'][els.index(e)] for e in uall])
+    if not mclose(tr, wt, 1e-7):
+        res.violate('public-tracer-order:' + tag, 'getTracerDiffusivity is not tracer_diffusivity() in the user element order', d, tr.tolist(), wt.tolist())
+
+
+KEY_DIFFONLY = 'darken-public-diffusivity-only-database'
+
+
+def oracle_public_diffonly(res, case, o, tag):
+    """public API on a phase that has DQ/DF parameters only (Al-Zr): getInterdiffusivity takes the *_from_diff path"""
+    th = case['th']; phase = th.phases[0]
+    if th.mobCallables.get(phase) is not None or th.diffCallables.get(phase) is None or o['n'] != 2:
+        return
+    x, T = case['x'], case['T']
+    D = float(np.squeeze(th.getInterdiffusivity(x, T)))
+    tr = np.asarray(th.getTracerDiffusivity(x, T), dtype=float)          # user order: [reference, solute]
+    ref = o['refIdx']; k = 1 - ref
+    X = o['X']
+    phi = X[k] * X[ref] * float(o['tot'][0, 0]) / (RGAS * T)
+    want = (X[ref] * tr[1] + X[k] * tr[0]) * phi
+    res.count('public-diffusivity-only-point:' + tag)
+    if not (D > 0) or not np.all(tr > 0):
+        res.violate('public-diffusivity-nonpositive:' + tag, 'public diffusivities not positive', case['desc'], [D, tr.tolist()], '> 0')
+    if not close(D, want, 1e-6):
+        res.violate(KEY_DIFFONLY, 'getInterdiffusivity is not the Darken combination of getTracerDiffusivity and the thermodynamic factor '
+                    '(phase with diffusivity parameters only: tracer of the element without parameters is exp(0) = %g)' % tr[0],
+                    dict(case['desc'], tracer=tr.tolist(), phi=phi), D, want)
+
+
+def oracle_pair(res, seed, xT):
+    """paired evaluation NI-CR-AL vs NI-AL-CR (theorems in C11)"""
+    a = _load('NiCrAl'); b = _load('NiAlCr')
+    (xcr, xal), T = xT
+    D1 = np.asarray(a.getInterdiffusivity([xcr, xal], T)); D2 = np.asarray(b.getInterdiffusivity([xal, xcr], T))
+    t1 = np.asarray(a.getTracerDiffusivity([xcr, xal], T)); t2 = np.asarray(b.getTracerDiffusivity([xal, xcr], T))
+    d = dict(kind='pair:NiCrAl/NiAlCr', x=[xcr, xal], T=T, seed=seed)
+    if not mclose(D1, D2[::-1, ::-1], 1e-6, float(np.abs(D1).max()) * 1e-3):
+        res.violate('elem-order:interdiffusivity', 'getInterdiffusivity is not equivariant under re-ordering of the solutes', d, D1.tolist(), D2.tolist())
+    if not mclose(t1, t2[[0, 2, 1]], 1e-6):
+        res.violate('elem-order:tracer', 'getTracerDiffusivity is not equivariant under re-ordering of the solutes', d, t1.tolist(), t2.tolist())
+    res.count('pair-checked')
+
+
+# ------------------------------------------------------------------ driver
+STUB_KINDS = ['subst', 'interst', 'binary-stationary', 'singular']
+
+
+def plan(ctx):
+    """list of (kind, name, seed)"""
+    P = []
+    ns = ctx.n(120, 1500)
+    for kind in STUB_KINDS:
+        for _ in range(ns if kind != 'singular' else max(6, ns // 8)):
+            P.append(('stub', kind, ctx.rng.getrandbits(40)))
+    real = {'NiCrAl': ctx.n(60, 1200), 'NiAl': ctx.n(20, 300), 'NiCr': ctx.n(20, 300), 'AlZr': ctx.n(60, 1200)}
+    if ctx.thorough:
+        real.update({'NiAlCr': 300, 'FeCrNi': 1200, 'AlMgSi': 1200, 'CuTi': 1200, 'AlZr-ex': 300})
+    for name, cnt in real.items():
+        for _ in range(cnt):
+            P.append(('real', name, ctx.rng.getrandbits(40)))
+    return P
+
+
+def build_case(kind, name, seed, xT=None):
+    if kind == 'stub':
+        c = make_stub(seed, name)
+        c['stationary'] = name == 'binary-stationary'
+        c['darken_tol'] = 1e-7
+        return c
+    c = real_case(seed, name, xT)
+    c['stationary'] = True          # monitored: the solver converged to a stationary composition set
+    c['darken_tol'] = 1e-6
+    return c
+
+
+def run(ctx, P, use_model=True):
+    import random
+    res = Result()
+    res.rule = ('duck-typed random phases (1-2 sublattices, 2-7 elements, interstitials C/N/O/H/B with and without vacancies, '
+                'mobility correction none/partial/full, vacancy-poor flag, stationary binaries, singular Hessians) and real pycalphad '
+                'composition sets from getLocalEq on sampled (x, T) boxes of the matrix phase of the shipped databases; '
+                'non-trivial = invertible bordered Hessian; distinct = (kind, seed)')
+    res.monitored = list(MONITORED)
+    cases, lines, spans = [], [], []
+    with warnings.catch_warnings():
+        warnings.simplefilter('ignore')
+        for kind, name, seed in P:
+            try:
+                case = build_case(kind, name, seed)
+            except Exception as e:
+                res.count('case-build-failed:%s:%s' % (name, type(e).__name__))
+                continue
+            if kind == 'real' and not case['converged']:
+                res.count('not-converged:' + name)
+                continue
+            o = gather(case)
+            if kind == 'stub' and name == 'singular' and o['K'] is not None:
+                res.count('singular-stub-inverted-by-roundoff-skipped')      # 1e20-sized inverse: nothing to compare
+                continue
+            g = np.random.default_rng(seed & 0xffffffff).normal(size=o['n']) * 1e4
+            L, ntr, dark = model_lines(case, o, g)
+            spans.append((len(lines), len(L), ntr, dark))
+            lines += L
+            cases.append((kind, name, seed, case, o, g))
+        answers = vlib.run_driver(PROP, lines) if (use_model and ctx.driver_ok) else None
+        npairs = 0
+        for (kind, name, seed, case, o, g), (st, ln, ntr, dark) in zip(cases, spans):
+            tag = name if kind == 'real' else 'stub-' + name
+            res.case((kind, name, seed), o['K'] is not None)
+            res.count('case:' + tag)
+            res.count('elements:%d' % o['n'])
+            if any(o['interst']):
+                res.count('with-interstitials')
+            if o['K'] is None:
+                res.count('inverse-failed')
+            if len(res.samples) < 3 and (kind == 'real' or name == 'interst'):
+                res.sample(dict(case['desc'], dMudX=np.asarray(o['tot']).tolist(), interdiffusivity=np.asarray(o['Dn']).tolist(),
+                                tracer=o['tracer'].tolist()))
+            if answers is not None:
+                try:
+                    compare_model(res, case, o, g, answers[st:st + ln], ntr, dark)
+                except (ValueError, StopIteration, IndexError) as e:
+                    res.disagree('model answer malformed: %r' % (e,), case['desc'], None, answers[st:st + ln][:2])
+            oracle_algebra(res, case, o, g, tag)
+            if kind == 'stub':
+                if name == 'binary-stationary':
+                    oracle_darken(res, case, o, tag, 1e-7)
+            else:
+                oracle_darken(res, case, o, tag, 1e-6)
+                oracle_public(res, case, o, tag)
+                oracle_public_diffonly(res, case, o, tag)
+                if case['stable']:
+                    oracle_monitored(res, case, o, tag)
+                else:
+                    res.count('outside-stable-region:' + tag)
+                if name == 'NiCrAl' and npairs < ctx.n(4, 200):
+                    oracle_pair(res, seed, (case['x'], case['T'])); npairs += 1
+    return res
+
+
+def corr(ctx):
+    return run(ctx, plan(ctx))
+
+
+def search(ctx, broken):
+    """something no longer checks: oracle alone on a fresh, larger sample"""
+    P = plan(ctx) + plan(ctx)
+    return run(ctx, P, use_model=False)
+
+
+def replay(ctx, entry):
+    c = entry['violation']['case']
+    kind, _, name = c['kind'].partition(':')
+    if kind == 'pair':
+        r = Result(); oracle_pair(r, c.get('seed', 0), (c['x'], c['T']))
+    else:
+        r = run_one(ctx, kind, name, c['seed'])
+    for v in r.violations:
+        print('  ', v['key'], v['what'], v['observed'], v['required'])
+    return not r.violations
+
+
+def run_one(ctx, kind, name, seed):
+    ctx.driver_ok = False
+    return run(ctx, [(kind, name, seed)], use_model=False)
